@@ -44,7 +44,10 @@ def case_strategy():
             lambda r, a, b: a if r < p_dep else b, st.floats(0, 1), dep, plain), fit)
         ms = draw(G.method_sets(knames, ann, max_methods=draw(st.sampled_from([2, 3, 5, 7])), max_pos=2,
                                 with_opt=False, with_sites=False, allow_zero=False,
-                                hosts=("func", "func", "attr", "mc"), catchall=True))
+                                hosts=("func", "func", "attr", "mc"), catchall=True,
+                                # keyword-only names, sometimes those of the conditions themselves (the generated
+                                # dispatcher must not confuse a parameter with an object it injects)
+                                kwnames=draw(st.sampled_from([("k0", "k1")] * 3 + [("p_pos", "p_even"), ("p_big", "INJECT")]))))
         calls = draw(G.calls_for(ms["methods"], corpus, ms["kwpool"], fitting=fit, n_calls=(2, 8)))
         for c in calls:
             c["script"] = []
